@@ -145,7 +145,7 @@ impl Group for Serve {
         "c12.serve"
     }
     fn rule(&self) -> &'static str {
-        "a real server on loopback (RunConfig::execute) whose host limiter is (max in {2,3,5}, check_every 1, reset 1000 s): connections from 127.0.0.1/2/3 with 1-3 sequential requests each, long enough for 127.0.0.1 to reach the drop level, then other addresses; per-request outcome 200/429/closed compared with the model's `serve`; oracle: an address whose register calls stay <= max is always answered 200, after any history; non-trivial = some connection dropped"
+        "a real server on loopback (RunConfig::execute) whose host (with and without alternative names) has the limiter (max in {2,3,5}, check_every 1, reset 1000 s): connections from 127.0.0.1/2/3 with 1-3 sequential requests each, long enough for 127.0.0.1 to reach the drop level, then other addresses; per-request outcome 200/429/closed compared with the model's `serve`; oracle: an address whose register calls stay <= max is always answered 200, after any history; non-trivial = some connection dropped"
     }
     fn parallel(&self) -> bool {
         false
@@ -177,6 +177,10 @@ impl Group for Serve {
         );
         let mut host = kvarn::host::Host::unsecure("localhost", "/nonexistent", ext, kvarn::host::Options::default());
         host.limiter = kvarn::limiting::Manager::new(max, ce, reset_ms as f64 / 1000.0);
+        // every other configuration: the host also answers to other names (as hosts named after a certificate do)
+        if line.len() % 2 == 0 {
+            host.add_alternative_name("alt.localhost").add_alternative_name("localhost");
+        }
         let data = kvarn::host::Collection::builder().insert(host).build();
         let Some(srv) = TestServer::try_start(data) else { return "inconclusive: server did not start".into() };
         // the readiness probe of TestServer::start made one connection from 127.0.0.9? no: it connects from 127.0.0.1.
@@ -244,7 +248,7 @@ impl Group for Hosts {
         "c12.hosts"
     }
     fn rule(&self) -> &'static str {
-        "a real server on loopback with 2-3 hosts on one port whose limiters differ (max in {2,3,5} or disabled, check_every 1, reset 1000 s; the first host's limiter doubles as the accept-time limiter): connections from 127.0.0.11-13 with 1-4 sequential requests each, every connection naming one host in its Host header; per-request outcome 200/429/closed compared with the model's `serveHosts`; oracle: requests to a host whose limiter is disabled are never answered 429 or dropped once the connection was accepted, and a fresh address (127.0.0.19) is served at the end; non-trivial = two hosts with different settings were both addressed and somebody was limited"
+        "a real server on loopback with 2-3 hosts (with and without alternative names) on one port whose limiters differ (max in {2,3,5} or disabled, check_every 1, reset 1000 s; the first host's limiter doubles as the accept-time limiter): connections from 127.0.0.11-13 with 1-4 sequential requests each, every connection naming one host in its Host header; per-request outcome 200/429/closed compared with the model's `serveHosts`; oracle: requests to a host whose limiter is disabled are never answered 429 or dropped once the connection was accepted, and a fresh address (127.0.0.19) is served at the end; non-trivial = two hosts with different settings were both addressed and somebody was limited"
     }
     fn parallel(&self) -> bool {
         false
@@ -283,6 +287,10 @@ impl Group for Hosts {
             let name: &'static str = ["h0.test", "h1.test", "h2.test", "h3.test"][i];
             let mut host = kvarn::host::Host::unsecure(name, "/nonexistent", ext, kvarn::host::Options::default());
             host.limiter = kvarn::limiting::Manager::new(max, ce, reset_ms as f64 / 1000.0);
+            // some hosts also answer to other names; which ones varies with the case
+            if (line.len() + i) % 2 == 0 {
+                host.add_alternative_name(["www.h0.test", "www.h1.test", "www.h2.test", "www.h3.test"][i]).add_alternative_name(name);
+            }
             b = b.insert(host);
         }
         let Some(srv) = TestServer::try_start(b.build()) else { return "inconclusive: server did not start".into() };
